@@ -143,7 +143,7 @@ fn merge_leading_lists(items: Vec<Vec<Block>>) -> Vec<Vec<Block>> {
             }
             let inner = it[0].items.clone(); // already merged: norm_block works bottom-up
             let rest: Vec<Block> = it[1..].to_vec();
-            if inner.iter().all(|x| x.is_empty()) {
+            if inner.iter().all(|x| x.iter().all(|b| b.k == "Html")) {
                 it = rest;
                 if it.is_empty() {
                     out.push(it);
@@ -153,7 +153,8 @@ fn merge_leading_lists(items: Vec<Vec<Block>>) -> Vec<Vec<Block>> {
             }
             let at = out.len();
             out.extend(inner);
-            if let Some(last) = (at..out.len()).rev().find(|i| !out[*i].is_empty()) {
+            // (an item that holds only dropped HTML carries nothing either)
+            if let Some(last) = (at..out.len()).rev().find(|i| out[*i].iter().any(|b| b.k != "Html")) {
                 out[last].extend(rest);
             }
             break;
